@@ -87,7 +87,7 @@ fn encode_log(out: &mut Vec<u64>) {
     }
     let mut evs = Vec::new();
     for e in &log {
-        if !(20..=28).contains(&e.kind) {
+        if !(20..=29).contains(&e.kind) {
             continue;
         }
         let n = ids.len() as u64;
@@ -145,13 +145,12 @@ fn stress(drv: u64, k: u64, rounds: u64, scale: u64, seed: u64) -> Result<Vec<u6
     let term = {
         let w = p.waker();
         let finished = finished.clone();
-        let wt = wake_times.clone();
         std::thread::spawn(move || {
             for h in handles {
                 let _ = h.join();
             }
+            // the terminating wake is not judged: the main thread may already have seen `finished`
             finished.store(true, SeqCst);
-            wt.lock().unwrap().push(t0.elapsed().as_micros() as u64);
             w.wake();
         })
     };
